@@ -150,11 +150,9 @@ func (h *Header) Encode(body []byte) []byte {
 	}
 	binary.BigEndian.PutUint16(data[:2], id)
 	h.Property.BodyDayaLen = uint16(len(body)) // 消息的长度改为回复的body长度
-	if len(body) < 1000 {
-		h.Property.PacketFragmented = 0 // 不分包
-	} else {
-		//  需要把这个内容分多个包 ???目前感觉没必要 暂时不实现 因为下发的包都比较小
-	}
+	// 下发的包都不分包 (长度超过1000的分包暂时不实现) 所以分包标志必须清零
+	// 否则沿用终端分包消息的头部时 会生成带分包标志但没有分包字段的帧 无法解析
+	h.Property.PacketFragmented = 0
 	binary.BigEndian.PutUint16(data[2:4], h.Property.encode())
 	if h.ProtocolVersion == consts.JT808Protocol2019 {
 		// 2019版本的标识
